@@ -550,6 +550,7 @@ func c13commonMutex(la *LockAnalysis, T *types.Named, ins ...ssa.Instruction) *t
 // the check
 
 func checkC13(c *Check) {
+	lockBalanceRule(c, "C13", pObfs)
 	p := c.P
 	a := c13resolve(c)
 	if a == nil {
